@@ -75,8 +75,84 @@ let of_cres (r : 'a cres) (k : 'a -> rstate -> string) : string =
   | CUB -> "UB"
   | CFuel -> "FUEL"
 
+(* ---------- BTOR2: canonical rendering of a line (same as show_btor2_line in harness/src/s_pa.rs) ---------- *)
+let str_of_bytes (l : n list) : string = String.concat "" (List.map (fun b -> String.make 1 (Char.chr (int_of_n b))) l)
+
+let show_btor2_line (l : line) : string =
+  let opt o = match o with None -> "~" | Some b -> "=" ^ hex_of_bytes b in
+  let id = str_of_n in
+  match l with
+  | LComment c -> "c:" ^ hex_of_bytes c
+  | LNode nd ->
+      let v = (match nd.n_variant with
+        | NSort (SBitVec w) -> "sort.bitvec." ^ id w
+        | NSort (SArray (d, c)) -> Printf.sprintf "sort.array.%s.%s" (id d) (id c)
+        | NValue (sort, variant) ->
+            let vv = (match variant with
+              | VConst (CBinary c) -> "const.b." ^ hex_of_bytes c
+              | VConst (CDecimal c) -> "const.d." ^ hex_of_bytes c
+              | VConst (CHex c) -> "const.h." ^ hex_of_bytes c
+              | VConst COne -> "one" | VConst COnes -> "ones" | VConst CZero -> "zero"
+              | VInput -> "input" | VState -> "state"
+              | VOp (OUnary (o, a0)) ->
+                  let name = str_of_bytes (unop_variant o) in
+                  let args = (match o with
+                    | UoUext w | UoSext w -> "(" ^ id w ^ ")"
+                    | UoSlice (u, lo) -> "(" ^ id u ^ "," ^ id lo ^ ")"
+                    | _ -> "") in
+                  Printf.sprintf "op.%s%s.%s" name args (id a0)
+              | VOp (OBinary (o, a0, a1)) -> Printf.sprintf "op.%s.%s.%s" (str_of_bytes (binop_variant o)) (id a0) (id a1)
+              | VOp (OTernary (o, a0, a1, a2)) ->
+                  Printf.sprintf "op.%s.%s.%s.%s" (str_of_bytes (ternop_variant o)) (id a0) (id a1) (id a2)) in
+            Printf.sprintf "value.%s.%s" (id sort) vv
+        | NAssign (state, asort, k, value) ->
+            Printf.sprintf "assign.%s.%s.%s.%s" (match k with AkInit -> "Init" | AkNext -> "Next") (id asort) (id state) (id value)
+        | NOutput (k, value) ->
+            Printf.sprintf "output.%s.%s"
+              (match k with OvOutput -> "Output" | OvBad -> "Bad" | OvConstraint -> "Constraint" | OvFair -> "Fair") (id value)
+        | NJustice nodes -> "justice.[" ^ String.concat "," (List.map id nodes) ^ "]") in
+      Printf.sprintf "n:%s:%s:%s:%s" (id nd.n_id) v (opt nd.n_symbol) (opt nd.n_comment)
+
+(* UTF-8 decoding of a (valid) string into its chars *)
+let chars_of_utf8 (b : int list) : int list =
+  let rec go l acc =
+    match l with
+    | [] -> List.rev acc
+    | c :: r when c < 0x80 -> go r (c :: acc)
+    | c :: c1 :: r when c < 0xe0 -> go r ((((c land 0x1f) lsl 6) lor (c1 land 0x3f)) :: acc)
+    | c :: c1 :: c2 :: r when c < 0xf0 -> go r ((((c land 0x0f) lsl 12) lor ((c1 land 0x3f) lsl 6) lor (c2 land 0x3f)) :: acc)
+    | c :: c1 :: c2 :: c3 :: r ->
+        go r ((((c land 0x07) lsl 18) lor ((c1 land 0x3f) lsl 12) lor ((c2 land 0x3f) lsl 6) lor (c3 land 0x3f)) :: acc)
+    | _ -> failwith "bad utf-8"
+  in go b []
+
+(* pa b2c <b|d|h> <hex of a UTF-8 string> *)
+let run_btor2_const (kind : string) (hex : string) : string =
+  let cs = List.map n_of_int (chars_of_utf8 (List.map int_of_n (bytes_of_hex hex))) in
+  let r = (match kind with
+    | "b" -> binary_const_try_from cs
+    | "d" -> decimal_const_try_from cs
+    | "h" -> hex_const_try_from cs
+    | _ -> failwith "bad const kind") in
+  match r with
+  | Err EmptyConst -> "empty"
+  | Err (InvalidDigit c) -> "invalid(" ^ str_of_n c ^ ")"
+  | Ok c ->
+      let l = LNode { n_id = n_of_int 2; n_variant = NValue (n_of_int 1, VConst c); n_symbol = None; n_comment = None } in
+      "ok " ^ hex_of_bytes (write_line l)
+
 let run (toks : string list) : string =
   match toks with
+  | ["b2c"; kind; hex] -> run_btor2_const kind hex
+  | ["btor2"; _; flags; datahex; evs; pre; chunk; ctor] ->
+      let pre = if ctor = "f" then pre else "0" in
+      let s0 = reader_init (S_rd.mk_source datahex evs pre) in
+      let (s1, _) = step s0 (OSetChunk (n_of_str chunk)) in
+      let fuel = nat_of_int (String.length datahex / 2 + 10) in
+      let written = String.contains flags 'w' in
+      let r = crun (parse_btor2 fuel lrs_init) s1 in
+      of_cres r (fun ((lines, fin), _) s ->
+        finish (List.map (fun l -> if written then hex_of_bytes (write_line l) else show_btor2_line l) lines) (show_final fin) s)
   | [parser; ty; flags; datahex; evs; pre; chunk; ctor] ->
       let pre = if ctor = "f" then pre else "0" in
       let s0 = reader_init (S_rd.mk_source datahex evs pre) in
